@@ -292,7 +292,12 @@ func cmdCrashCheck(args []string) error {
 		x.crc.note(ConcreteBody(op.Body))
 	}
 	line := map[string]any{"k": "reopen", "tr": *trNo, "i": acked + 1, "mode": "disk", "acked": acked, "site": *site, "at": *at}
-	b, err := rosmar.OpenBucket("rosmar://"+*dir, "crashb", rosmar.ReOpenExisting)
+	// the survivor is re-opened in either of the two modes that open an existing bucket
+	mode := rosmar.OpenMode(rosmar.ReOpenExisting)
+	if *trNo%2 == 0 {
+		mode = rosmar.CreateOrOpen
+	}
+	b, err := rosmar.OpenBucket("rosmar://"+*dir, "crashb", mode)
 	if err != nil {
 		line["openerr"] = err.Error()
 	} else {
